@@ -157,6 +157,77 @@ func c03Search(c *c03Coll, keyLen int, mk func(j uint64, buf []byte), want int, 
 	return hits, tried
 }
 
+// c03SiblingCids: CIDv1(codec, sha2-256, D) for the digests D of the stored objects and codecs 0, 1, 2, … (≠ dag-cbor)
+// whose index position (bucket, in-bucket hash) is that of the stored CIDv1(dag-cbor, sha2-256, D).  The first `want`
+// in (codec, object) order: a deterministic function of the index file.
+func c03SiblingCids(c *c03Coll, objs []*gObj, want int, maxCodec uint64) (hits [][]byte, tried uint64) {
+	type pos struct {
+		b int
+		h uint64
+	}
+	var own []pos
+	var digests [][]byte
+	for _, ob := range objs {
+		cb := ob.Cid.Bytes()
+		if len(cb) != 36 || cb[0] != 1 || cb[1] != 0x71 || cb[2] != 0x12 || cb[3] != 0x20 {
+			continue
+		}
+		i := int(c.db.Header.BucketHash(cb))
+		own = append(own, pos{i, c.buckets[i].Hash(cb)})
+		digests = append(digests, cb[4:])
+	}
+	const workers = 8
+	const chunk = uint64(1 << 12)
+	for base := uint64(0); base < maxCodec && len(hits) < want; base += chunk {
+		type hit struct {
+			codec uint64
+			oi    int
+			k     []byte
+		}
+		var mu sync.Mutex
+		var found []hit
+		var wg sync.WaitGroup
+		for w := 0; w < workers; w++ {
+			wg.Add(1)
+			go func(w int) {
+				defer wg.Done()
+				buf := make([]byte, 0, 48)
+				for codec := base + uint64(w); codec < base+chunk && codec < maxCodec; codec += workers {
+					if codec == 0x71 {
+						continue
+					}
+					for oi, d := range digests {
+						buf = append(buf[:0], 1)
+						buf = binary.AppendUvarint(buf, codec)
+						buf = append(buf, 0x12, 0x20)
+						buf = append(buf, d...)
+						i := int(c.db.Header.BucketHash(buf))
+						if i == own[oi].b && c.buckets[i].Hash(buf) == own[oi].h {
+							mu.Lock()
+							found = append(found, hit{codec, oi, append([]byte(nil), buf...)})
+							mu.Unlock()
+						}
+					}
+				}
+			}(w)
+		}
+		wg.Wait()
+		sort.Slice(found, func(a, b int) bool {
+			if found[a].codec != found[b].codec {
+				return found[a].codec < found[b].codec
+			}
+			return found[a].oi < found[b].oi
+		})
+		for _, h := range found {
+			if len(hits) < want {
+				hits = append(hits, h.k)
+			}
+		}
+		tried = (base + chunk) * uint64(len(digests))
+	}
+	return hits, tried
+}
+
 func c03Mix(seed, j uint64) uint64 {
 	z := seed + (j+1)*0x9E3779B97F4A7C15
 	z = (z ^ (z >> 30)) * 0xBF58476D1CE4E5B9
@@ -1020,6 +1091,12 @@ func (h *c03Harness) findKeys(rng *zz.RNG, e *c03Epoch, thorough bool) *c03Keys 
 	k.collCids = hits
 	h.s.Add("absent-cids-tried", int(tried))
 	h.s.Add("absent-cids-colliding", len(hits))
+	// absent CIDs with the DIGEST of a stored object under another codec that fall on that very object's index entry
+	// (same bucket, same 24-bit hash): only the full CID comparison tells them from the stored key
+	sib, sibTried := c03SiblingCids(e.cidColl, ge.Objs, 2, 1<<22)
+	k.collCids = append(k.collCids, sib...)
+	h.s.Add("absent-cids-same-digest-other-codec-tried", int(sibTried))
+	h.s.Add("absent-cids-same-digest-other-codec-colliding-with-their-sibling", len(sib))
 	for i := 0; i < 10; i++ {
 		c := rng.Bytes(36)
 		c[0], c[1], c[2], c[3] = 0x01, 0x71, 0x12, 0x20
